@@ -72,6 +72,12 @@ def ecdf_integral(xs, y):
     return tot
 
 
+def pad(cases):
+    """NaN-pad every member list to the common length: the model must receive exactly the slots the implementation receives"""
+    M = max(len(c[0]) for c in cases)
+    return [(list(xs) + [NAN] * (M - len(xs)), y) for xs, y in cases]
+
+
 def batch_arrays(cases):
     """cases: list of (members list (NaN padded to a common length), obs) -> fcst[case, m], obs[case]"""
     M = max(len(c[0]) for c in cases)
@@ -94,6 +100,7 @@ def same(a, b, tol=1e-9):
 # ---------------------------------------------------------------------------------------------------
 def case_level(ctx, cases, tag):
     p = P()
+    cases = pad(cases)
     fc, ob = batch_arrays(cases)
     for meth in ("ecdf", "fair"):
         impl = p.crps_for_ensemble(fc, ob, "m", method=meth, preserve_dims="all", include_components=True)
@@ -140,6 +147,7 @@ def rand_case(rng, maxm=6, grid=GRID):
 def tw_level(ctx, cases, tag):
     """lower tail + interval + upper tail = unweighted, per case, scalar and per-case thresholds (implementation and model)"""
     p = P()
+    cases = pad(cases)
     rng = ctx.rng
     fc, ob = batch_arrays(cases)
     n = len(cases)
@@ -180,6 +188,7 @@ def tw_level(ctx, cases, tag):
 def brier_level(ctx, cases, tag):
     """sum over consecutive break points of width x ensemble Brier score at the midpoint = CRPS (ecdf / fair)"""
     p = P()
+    cases = pad(cases)
     fc, ob = batch_arrays(cases)
     pts = sorted({v for xs, y in cases for v in xs + [y] if not isnan(v)})
     if len(pts) < 2:
@@ -223,6 +232,7 @@ def brier_level(ctx, cases, tag):
 
 def invariance_level(ctx, cases, tag):
     p = P()
+    cases = pad(cases)
     rng = ctx.rng
     fc, ob = batch_arrays(cases)
     M = fc.sizes["m"]
@@ -326,7 +336,8 @@ def enc_mode(mode):
         return enc_list([enc_str("plain")])
     if k in ("tail", "chain"):
         return enc_list([enc_str("tail"), enc_str(mode["tail"]), enc_arr(thr(mode["t"]))])
-    return enc_list([enc_str("interval"), enc_arr(thr(mode["lo"])), enc_arr(thr(mode["hi"]))])
+    sc = not isinstance(mode["lo"], xr.DataArray) and not isinstance(mode["hi"], xr.DataArray)
+    return enc_list([enc_str("interval_s" if sc else "interval"), enc_arr(thr(mode["lo"])), enc_arr(thr(mode["hi"]))])
 
 
 def thr(t):
@@ -492,6 +503,52 @@ def additivity_full(ctx, n):
                           np.asarray(tot.values).tolist(), np.asarray(s.values).tolist())
 
 
+def guard_level(ctx):
+    """documented guards as predicates on the implementation: lower < upper (ties lower == upper included, scalar and array form),
+    tail in {upper, lower}, method in {ecdf, fair}"""
+    p = P()
+    rng = ctx.rng
+    fc, ob = batch_arrays([rand_case(rng, maxm=4) for _ in range(4)])
+    for _ in range(ctx.n(12, 60)):
+        lo = rng.choice(GRID)
+        for kind in ("scalar", "array", "mixed"):
+            for rel in ("eq", "gt", "lt"):
+                hi = lo if rel == "eq" else (lo - rng.choice([Fraction(1, 2), Fraction(2)]) if rel == "gt" else lo + rng.choice([Fraction(1, 2), Fraction(2)]))
+                if kind == "scalar":
+                    a, b = float(lo), float(hi)
+                else:
+                    # one case violates (or ties), the others are fine
+                    k = rng.randrange(4)
+                    la = [float(lo)] * 4
+                    ha = [float(lo) + 1.0] * 4
+                    ha[k] = float(hi)
+                    a = xr.DataArray(la, dims=["case"])
+                    b = xr.DataArray(ha, dims=["case"])
+                    if kind == "mixed":
+                        a = float(lo)
+                r = core.call_impl(p.interval_tw_crps_for_ensemble, fc, ob, "m", a, b, preserve_dims="all")
+                desc = {"fn": "interval_tw_crps_for_ensemble", "lower_threshold": gens.da_repr(a), "upper_threshold": gens.da_repr(b), "thresholds": kind}
+                ctx.case(("guard", kind, rel, str(lo), str(hi)))
+                want_err = rel in ("eq", "gt")
+                if want_err and r != ("err", "err:ValueError"):
+                    ctx.violation("interval_tw_crps_for_ensemble accepts lower_threshold >= upper_threshold", desc, "ValueError", "a value" if r[0] == "ok" else r[1])
+                if not want_err and r[0] != "ok":
+                    ctx.violation("interval_tw_crps_for_ensemble rejects lower_threshold < upper_threshold", desc, "a value", r[1])
+    for tail, ok in (("upper", True), ("lower", True), ("Upper", False), ("both", False), ("", False)):
+        r = core.call_impl(p.tail_tw_crps_for_ensemble, fc, ob, "m", 0.5, tail=tail, preserve_dims="all")
+        ctx.case(("guard-tail", tail))
+        if (r[0] == "ok") != ok or (not ok and r[1] != "err:ValueError"):
+            ctx.violation("tail_tw_crps_for_ensemble: tail must be 'upper' or 'lower'", {"tail": tail}, "value" if ok else "ValueError", r[0] if r[0] == "ok" else r[1])
+    for meth, ok in (("ecdf", True), ("fair", True), ("ECDF", False), ("crps", False), ("", False)):
+        for f in (lambda **k: p.crps_for_ensemble(fc, ob, "m", **k), lambda **k: p.tail_tw_crps_for_ensemble(fc, ob, "m", 0.5, **k),
+                  lambda **k: p.interval_tw_crps_for_ensemble(fc, ob, "m", 0.0, 1.0, **k), lambda **k: p.tw_crps_for_ensemble(fc, ob, "m", lambda x: np.maximum(x, 0.5), **k)):
+            r = core.call_impl(f, method=meth, preserve_dims="all")
+            ctx.case(("guard-method", meth))
+            if (r[0] == "ok") != ok or (not ok and r[1] != "err:ValueError"):
+                ctx.violation("method must be 'ecdf' or 'fair'", {"method": meth}, "value" if ok else "ValueError", r[0] if r[0] == "ok" else r[1])
+    ctx.count("guards")
+
+
 def exhaustive_cases():
     vals = SMALL + [NAN]
     out = []
@@ -504,7 +561,6 @@ def exhaustive_cases():
 
 def run(ctx):
     rng = ctx.rng
-    corpus(ctx)
     ex = exhaustive_cases()
     ctx.exhaustive = True
     for i in range(0, len(ex), 400):
@@ -523,4 +579,6 @@ def run(ctx):
     tw_level(ctx, [c for c in ex if len(c[0]) >= 2][:: (7 if ctx.tier == "quick" else 1)], "tw-sweep")
     full_level(ctx, ctx.n(350, 6000))
     additivity_full(ctx, ctx.n(60, 1200))
+    guard_level(ctx)
+    corpus(ctx)
     ctx.sample({"theorem": "C06_crps_ecdf_is_integral", "meaning": "kernel form = integral of (F_ens - 1{y<=t})^2 for every ensemble"})
